@@ -22,6 +22,10 @@ func baselinePath() string {
 	return filepath.Join(evid.Root, "harness", "props", "c03", "carried_fields.json")
 }
 
+func distPath() string {
+	return filepath.Join(evid.Root, "harness", "props", "c03", "distinguishing.json")
+}
+
 func Run(c *evid.Ctx) {
 	codes, unknown := packs.Discover()
 	c.Cov["factory_type_codes"] = len(codes)
@@ -34,6 +38,7 @@ func Run(c *evid.Ctx) {
 	}
 	var evals, nontriv int64
 	carried := map[string][]string{}
+	distinguishing := map[string][]string{} // type -> "base|slot|alt" whose encoding differs from its base's
 	var mu sync.Mutex
 	var wg sync.WaitGroup
 	sem := make(chan struct{}, 16)
@@ -47,6 +52,9 @@ func Run(c *evid.Ctx) {
 			baseBytes := map[int][]byte{}
 			baseBroken := map[int]bool{}
 			sens := map[string]bool{}
+			var dist []string
+			failSingle := map[string]bool{}
+			revertUnwritable := map[string]bool{}
 			allSlots := map[string]bool{}
 			packs.Enumerate(t, k, func(a packs.Assignment) {
 				obj, slots := a.Build()
@@ -58,6 +66,30 @@ func Run(c *evid.Ctx) {
 				if len(a.Dev) == 1 && a.Base == 1 && v.Bytes != nil && !bytes.Equal(v.Bytes, baseBytes[1]) {
 					for s := range a.Dev {
 						sens[s] = true
+					}
+				}
+				if len(a.Dev) == 1 && v.Bytes != nil && baseBytes[a.Base] != nil {
+					// some constructors read the clock (ServerInfoPack.UpTime): the base is rebuilt right
+					// before and right after the deviating object, and the comparison only counts when
+					// the two base encodings agree
+					enc := func(x packs.Assignment) []byte {
+						o, _ := x.Build()
+						b, err := packs.Encode(o)
+						if err != nil {
+							return nil
+						}
+						return b
+					}
+					base := packs.Assignment{Type: t, Base: a.Base, Dev: map[string]int{}}
+					before, dev, after := enc(base), enc(a), enc(base)
+					if before != nil && dev != nil && bytes.Equal(before, after) {
+						for s, alt := range a.Dev {
+							k := fmt.Sprintf("%d|%s|%d", a.Base, s, alt)
+							if bytes.Equal(dev, before) {
+								k = "=" + k // stable and NOT distinguishing
+							}
+							dist = append(dist, k)
+						}
 					}
 				}
 				if len(a.Dev) == 0 {
@@ -83,16 +115,39 @@ func Run(c *evid.Ctx) {
 				} else if baseBroken[0] && v.Class == "write-panic" && allKeep(a) {
 					// reverting a slot to what the constructor left there reproduces the unwritable
 					// constructor state (reported above as information), not a new defect
+					for s := range a.Dev {
+						if len(a.Dev) == 1 {
+							revertUnwritable[fmt.Sprintf("%d|%s", a.Base, s)] = true
+						}
+					}
 					return
+				} else if v.Class == "write-panic" && len(a.Dev) > 1 {
+					for s, alt := range a.Dev {
+						if alt == 0 && revertUnwritable[fmt.Sprintf("%d|%s", a.Base, s)] {
+							return // the same reverted slot, together with an unrelated deviation
+						}
+					}
 				}
 				if v.Class == "" {
 					return
 				}
 				if v.Class == "write-panic" {
 					// a deviation the writer cannot take although the base was fine
-					var slot string
-					for s := range a.Dev {
-						slot = s
+					slot := devSlots(a)
+					if len(a.Dev) == 1 {
+						failSingle[fmt.Sprintf("%d|%s|%s", a.Base, slot, v.Class)] = true
+					} else {
+						var names []string
+						for s := range a.Dev {
+							names = append(names, s)
+						}
+						sort.Strings(names)
+						for _, s := range names {
+							if failSingle[fmt.Sprintf("%d|%s|%s", a.Base, s, v.Class)] {
+								slot = s
+								break
+							}
+						}
 					}
 					c.Violation(fmt.Sprintf("C03:%s:write-panic:%s", t.Name, slot), fmt.Sprintf("%s: %s", a.String(), v.Msg), map[string]interface{}{"engine": "E3", "assignment": a.String()})
 					return
@@ -101,7 +156,25 @@ func Run(c *evid.Ctx) {
 				if v.Class == "reencode" && v.Field != "" {
 					key += ":" + stripIdx(v.Field)
 				} else {
-					key += ":" + devSlots(a)
+					// minimal cause: when one of the deviating slots already fails the same way on its
+					// own (singles are enumerated before pairs), the pair is that finding again
+					cause := devSlots(a)
+					if len(a.Dev) == 1 {
+						failSingle[fmt.Sprintf("%d|%s|%s", a.Base, cause, v.Class)] = true
+					} else {
+						var names []string
+						for s := range a.Dev {
+							names = append(names, s)
+						}
+						sort.Strings(names)
+						for _, s := range names {
+							if failSingle[fmt.Sprintf("%d|%s|%s", a.Base, s, v.Class)] {
+								cause = s
+								break
+							}
+						}
+					}
+					key += ":" + cause
 				}
 				c.Violation(key, fmt.Sprintf("%s: %s", a.String(), v.Msg), map[string]interface{}{"engine": "E3", "assignment": a.String(), "bytes": fmt.Sprintf("%x", clip(v.Bytes))})
 			})
@@ -112,6 +185,8 @@ func Run(c *evid.Ctx) {
 			sort.Strings(cf)
 			mu.Lock()
 			carried[t.Name] = cf
+			sort.Strings(dist)
+			distinguishing[t.Name] = dist
 			mu.Unlock()
 		}()
 	}
@@ -122,6 +197,41 @@ func Run(c *evid.Ctx) {
 		js, _ := json.MarshalIndent(carried, "", " ")
 		os.WriteFile(baselinePath(), js, 0o644)
 		fmt.Println("carried-field baseline written to", baselinePath())
+		onlyDist := map[string][]string{}
+		for tn, ks := range distinguishing {
+			for _, k := range ks {
+				if !strings.HasPrefix(k, "=") {
+					onlyDist[tn] = append(onlyDist[tn], k)
+				}
+			}
+		}
+		js, _ = json.Marshal(onlyDist)
+		os.WriteFile(distPath(), js, 0o644)
+	}
+	// distinguishing-value baseline: a single-slot deviation whose encoding differed from its base's on
+	// the pinned tree must still differ (otherwise two packs that were distinct on the wire have been
+	// merged: the writer dropped or clamped a field for that value)
+	var wantDist map[string][]string
+	if js, err := os.ReadFile(distPath()); err != nil {
+		c.Broken("distinguishing-value baseline missing: " + err.Error())
+	} else if err := json.Unmarshal(js, &wantDist); err != nil {
+		c.Broken("distinguishing-value baseline unreadable: " + err.Error())
+	} else {
+		n := 0
+		for tn, keys := range wantDist {
+			have := map[string]bool{}
+			for _, k := range distinguishing[tn] {
+				have[k] = true
+			}
+			for _, k := range keys {
+				n++
+				if have["="+k] {
+					parts := strings.SplitN(k, "|", 3)
+					c.Violation(fmt.Sprintf("C03:%s:value-not-carried:%s", tn, stripIdx(parts[1])), fmt.Sprintf("%s base%s: setting %s to alternative %s no longer changes the encoding (it did on the pinned tree): the value is lost on the wire", tn, parts[0], parts[1], parts[2]), nil)
+				}
+			}
+		}
+		c.Cov["distinguishing_single_deviations_in_baseline"] = n
 	}
 	var want map[string][]string
 	if js, err := os.ReadFile(baselinePath()); err != nil {
